@@ -322,4 +322,15 @@ structure Visit (σ κ : Type) where
 /-- A history of map iterations: each loop of each block, in program order, each with its own iteration order. -/
 def runVisits {σ κ : Type} (s : σ) (vs : List (Visit σ κ)) : σ := vs.foldl (fun s v => v.run s v.order) s
 
+/-- Two histories run the same loops, each on a permutation of the other's iteration order. -/
+inductive SameUpToOrder {σ κ : Type} : List (Visit σ κ) → List (Visit σ κ) → Prop
+  | nil : SameUpToOrder [] []
+  | cons {v v' : Visit σ κ} {vs vs' : List (Visit σ κ)} :
+      v.run = v'.run → v.order.Perm v'.order → SameUpToOrder vs vs' → SameUpToOrder (v :: vs) (v' :: vs')
+
+/-- the same for plain lists of orders (rounds of one loop) -/
+inductive PermEach {κ : Type} : List (List κ) → List (List κ) → Prop
+  | nil : PermEach [] []
+  | cons {o o' : List κ} {os os' : List (List κ)} : o.Perm o' → PermEach os os' → PermEach (o :: os) (o' :: os')
+
 end Aergo.Determ
